@@ -59,7 +59,7 @@ ASSUMPTIONS = [
     "step-size growth bound exp(0.6)*(1+1e-6); covariance symmetry to 1e-5*max(1,max|C|)",
     "optimiser states are branched by field-wise copies (jax arrays are immutable); a digest of every parent state is re-checked after its branches ran",
 ]
-BUDGET_S = {"quick": 900, "thorough": 3000}
+BUDGET_S = {"quick": 1500, "thorough": 4800}
 
 SIG = "C16|{}|{}"
 # failure-kind vocabulary
@@ -155,10 +155,11 @@ def items(tier, seed):
     pop = 4
     n1 = len(weak_orders(pop)) + len(nonfinite(pop, quick))
     if quick:
-        combos = [(0, False), (1, True)]
+        # 6 configurations: every (dim, active) pair once; key / maximize alternate with them
+        cfgs = [(dim, active, ((0, False), (1, True))[(dim + int(active)) % 2]) for dim in [1, 2, 3] for active in [False, True]]
     else:
-        combos = [(0, False), (0, True), (1, False), (1, True)]
-    for dim, active, (ks, mx) in itertools.product([1, 2, 3], [False, True], combos):
+        cfgs = list(itertools.product([1, 2, 3], [False, True], [(0, False), (0, True), (1, False), (1, True)]))
+    for dim, active, (ks, mx) in cfgs:
         for lo, hi in chunks(n1, 6):
             out.append(dict(name=f"cma-d{dim}-a{int(active)}-k{ks}-m{int(mx)}-g1[{lo}:{hi}]", part="cma", dim=dim,
                             active=active, maximize=mx, kseed=ks + 2 * seed, pop=pop, block=[lo, hi],
